@@ -52,10 +52,10 @@ CHECKS = {
    text="All sequences of length 1-2 over a ~50-request alphabet covering every route valid and with each kind of damage (ids, contexts, TTLs, options, xs-meta incl. non-ASCII header bytes, bodies none/small/70000 chunked, CAS hashes, unknown methods), each on a fresh seeded store behind the real api::serve over the unix socket with a raw HTTP/1.1 client; every response must exist, have the right status class, the right effect on the raw partitions, and NDJSON/SSE bodies must decode to what Store::read returns; GET /version must still work afterwards.",
    note="Trusted: hyper's HTTP/1 parsing, tokio. Any 2xx counts as success; follow streams are covered by C03/C06/C11 at the Store API."),
 
- "C06": dict(engine="E1-seq+E2-sched+E4-http", cat="model_checking", ref="DESIGN.md §5 C06",
+ "C06": dict(engine="E1-seq+E2-sched+E4-http+E5", cat="model_checking", ref="DESIGN.md §5 C06",
    technique="explicit-state BFS (store paths), preemption-bounded schedule DFS (follow paths) and exhaustive HTTP streaming cases, all on the real code",
-   text="Zero context + two registered contexts with numerically adjacent ids, the same topics in all three: (E1) all histories up to the reported depth with the full (context,last-id,limit) read battery on both read paths and head for every (topic,context); (E2) scoped followers from start / tail / last-id+limit against writers in every context under all interleavings within the bound; (E4) every streaming HTTP route taking a context (head-follow, cat-follow NDJSON+SSE) x target context x head present x order of foreign appends, read up to a sentinel. Nothing of another context may ever be delivered.",
-   note="Trusted as in E1/E2/E4. Script-level paths (.cat/.head inside handlers and commands, handler dispatch/output) are covered by the lifecycle engine's checks for C14/C15 and are not yet part of this check."),
+   text="Zero context + two registered contexts with numerically adjacent ids, the same topics in all three: (E1) all histories up to the reported depth with the full (context,last-id,limit) read battery on both read paths and head for every (topic,context); (E2) scoped followers from start / tail / last-id+limit against writers in every context under all interleavings within the bound; (E4) every streaming HTTP route taking a context (head-follow with and without the context parameter, cat-follow NDJSON+SSE) x target context x head present x order of foreign appends, read up to a sentinel; (E5) .cat / .cat --last-id / .head / .head --context inside a handler and inside a command of context B, handler dispatch (a frame of A must not trigger it) and handler output with --context A. Nothing of another context may ever be delivered.",
+   note="Trusted as in E1/E2/E4/E5."),
  "C10": dict(engine="E6-enum+observer", cat="model_checking", ref="DESIGN.md §5 C10",
    technique="bounded exhaustive enumeration of byte strings x content entry points with an independent SHA-256 oracle, plus a hook-level observer reading the content of every hashed frame before it can become visible",
    text="6 byte strings around the buffer sizes (empty, 1, non-UTF-8, 8192, 8193, 70000) through 8 entry points (Store CAS API in both size-hinted and streaming forms, POST /cas and POST /{topic}, plain and chunked); every reported hash must equal an independently computed sha256 integrity string, be equal across entry points, return the bytes, and survive a reopen; an observer installed at the append hook reads the content of every hashed frame at the moment its id is assigned, on whatever thread appends it.",
